@@ -102,6 +102,29 @@ func (m *Machine) binop(fr *frame, op token.Token, a, b Value, pos token.Pos) Va
 				return BoolC(true)
 			}
 		}
+		// two closed constants one of which is infinite: IEEE comparison
+		if vx, ok := sym.ClosedConst(x.E); ok {
+			if vy, ok := sym.ClosedConst(y.E); ok {
+				_, ix := sym.ClosedInf(x.E)
+				_, iy := sym.ClosedInf(y.E)
+				if ix || iy {
+					switch op {
+					case token.EQL:
+						return BoolC(vx == vy)
+					case token.NEQ:
+						return BoolC(vx != vy)
+					case token.LSS:
+						return BoolC(vx < vy)
+					case token.LEQ:
+						return BoolC(vx <= vy)
+					case token.GTR:
+						return BoolC(vx > vy)
+					case token.GEQ:
+						return BoolC(vx >= vy)
+					}
+				}
+			}
+		}
 		switch op {
 		case token.ADD:
 			return FloatV{sym.Add(x.E, y.E)}
@@ -669,12 +692,37 @@ func (m *Machine) builtinExternal(fn *ssa.Function, args []Value) (Value, bool) 
 		// the sum of the elements (compensation changes rounding only)
 		if sl, ok := args[0].(SliceV); ok {
 			acc := sym.Expr{}
+			closed, anyInf := true, false
+			var vals []float64
 			for _, el := range SliceElems(sl) {
 				f, isF := el.(FloatV)
 				if !isF {
 					return nil, false
 				}
 				acc = sym.Add(acc, f.E)
+				if v, ok := sym.ClosedConst(f.E); ok && closed {
+					vals = append(vals, v)
+					if math.IsInf(v, 0) {
+						anyInf = true
+					}
+				} else {
+					closed = false
+				}
+			}
+			if closed && anyInf && strings.HasSuffix(full, "SumCompensated") {
+				// closed constants with an infinity among them: the Kahan-Neumaier scheme itself, in IEEE arithmetic
+				// (its correction term is Inf-Inf = NaN once the running sum is infinite)
+				var sum, c float64
+				for _, x := range vals {
+					t := sum + x
+					if math.Abs(sum) >= math.Abs(x) {
+						c += (sum - t) + x
+					} else {
+						c += (x - t) + sum
+					}
+					sum = t
+				}
+				return FloatV{sym.NumF(sum + c)}, true
 			}
 			return FloatV{acc}, true
 		}
